@@ -2831,3 +2831,9 @@ func (w *World) readOnlyFn(fn *ssa.Function, d int) bool {
 	w.roMemo[fn] = ok
 	return ok
 }
+
+// derefNamed: the named type behind t (through one pointer), or nil.
+func derefNamed(t types.Type) *types.Named {
+	n, _ := deref(t).(*types.Named)
+	return n
+}
